@@ -30,6 +30,21 @@ CHECKS = {
          "Histories of up to 25 ops with size scripts (large->small, growing, equal, empty), payload classes that look like BLTE containers or local headers, all three compression modes, and drop+reopen on the same directory; after every step every live key must read back byte-for-byte and removed/never-written keys must be absent. The size-order grid (all ordered pairs/triples of 6 sizes x 3 systems, every payload class) is enumerated completely.",
          "Trusted: the harness's own single-chunk BLTE encoder + reference MD5 for the key, the map model. Sizes <= 8 KiB mostly, 100 KiB steps, >64 MiB only in thorough. Working directories on /dev/shm when present.",
          "DESIGN.md §3 C04"),
+ "C17": ("pbt+enum", "exploration",
+         "model-based stateful testing against a textbook VecDeque LRU: exhaustive enumeration of all short operation sequences (capacities 1-3, 4 keys incl. the all-zero key) plus proptest histories up to length 200 / capacity 64, compared after every operation",
+         "All sequences over touch/remove/evict_tail/evict_to_target/bump_generation/reset up to length 5 (6 thorough) and all sequences with one persistence op (reload, run_cycle) up to length 4 (5 thorough) are enumerated; random histories cover long runs and larger capacities. After every op len, contains for every pool key, tail->head order, capacity and documented return values equal the reference.",
+         "Trusted: the VecDeque reference; a hang (cyclic list) is decided by a watchdog with a deterministic re-run. Slot numbers, bytes_freed and generation numbers are unspecified and not asserted.",
+         "DESIGN.md §3 C17"),
+ "C16": ("pbt+enum", "exploration",
+         "differential testing: every patch produced by every builder is applied by every library patcher (all buffer sizes) and by an independent reference bspatch and compared with the new file; exhaustive over all pairs of short strings on a 2-letter alphabet, a boundary grid, and proptest edit scripts; mutated patches for the length clause",
+         "All (old,new) in ({a,b}^<=6)^2 x 11 builder configurations are enumerated (<=8 letters thorough); a grid of prefix/middle/suffix lengths around the 4-byte match and 256-byte extra thresholds; random edit scripts (insert/delete/move/dup/overwrite) up to 64 KiB; block-level and raw corruption of generated patches for 'Err or exactly output_size bytes, no panic'.",
+         "Trusted: the reference bspatch in harness/c16/src/refpatch.rs (self-tested against the five CDN old/patch/new triplets), flate2. A builder may refuse (Err) - only patches it returns are judged.",
+         "DESIGN.md §3 C16"),
+ "C18": ("pbt+enum", "exploration",
+         "generated files and span sets for extract_compact_segment judged against the concatenation of the live spans (and byte-identity on refusal); generated and exhaustively enumerated segment populations for plan_archive_merge judged by executing the plan on an interval model",
+         "Span sets from sorted cut points (adjacent, gapped, zero-length, first span after 0, spans larger than the buffer, unsorted order, five overlap perturbations) x buffer budgets; merge plans for up to 12 segments, and every population of <= 4 segments over {frozen,thawed} x write positions 0..=4 (plus all-frozen 5-segment populations) x three thresholds enumerated completely. Every move: source live, destination free at that moment, within segment size, destinations disjoint; every live byte exactly once at the end.",
+         "Trusted: the interval model in harness/c18/src/plan.rs (mapping quoted from the rustdoc of MoveItem/SegmentInfo). Spans always lie inside the file, as index-derived spans do.",
+         "DESIGN.md §3 C18"),
 }
 
 NOT_YET = "check not built yet in this session (work in progress; see DESIGN.md §3 for the planned generator and oracle)"
